@@ -55,11 +55,11 @@ CLAIMED.update({
     'C09': _c(BMC + 'named column references denote the column at that header position (symbolic neighbours / hostile concrete names), escape and index-map lemmas over symbolic names, and header-line / WITH-modifier handling over symbolic CSV text.', 'C09',
               'Bounds: 3-name headers, symbolic names len<=2/3, 16 hostile names, CSV texts 2-3 lines x <=2 chars, caller flag x 5 modifiers, input and join table. Outside: pandas/sqlite header sources.',
               'CrossHair symbolic execution of query_table / rbql_engine.query over CSVRecordIterator on stub streams (z3)'),
-    'C10': _c(BMC + 'quote->split kernel lemma and real CSVWriter->CSVRecordIterator round trip for every representable table within bounds; lossy-output warnings iff; known finding F5 (multi-character delimiter under quoted policies) reproduced, its complement holds.', 'C10',
+    'C10': _c(BMC + 'quote->split kernel lemma and real CSVWriter->CSVRecordIterator round trip for every representable table within bounds; lossy-output warnings iff; multi-character delimiters under the quoted policies (a defect found by this check, since fixed in /repo) included.', 'C10',
               'Bounds: kernel <=5 chars in 1-3 fields; pipeline <=2x2 tables with <=3 (quick)/4 chars; delimiters , ; TAB | SPACE :: and non-ASCII; LF/CRLF/CR. Text level only: utf-8/latin-1 codec layers (io.TextIOWrapper) trusted/outside.',
               'CrossHair symbolic execution of csv_utils and rbql_csv writer->reader pipeline on stub streams (z3)'),
     'C12': _c(BMC + 'for every text and every partition into reads (symbolic pieces) and chunk size the real reader returns what the reference reader derives from the concatenation.', 'C12',
-              'Bounds: total length <=3 (quick)/<=5, 1-3 pieces, chunk sizes 1,2,3,1024, 11 reader configurations. Outside: byte-level partitions of multi-byte encodings (io.TextIOWrapper incremental decoder, trusted).',
+              'Bounds: total length <=3 (quick)/<=5, 1-3 pieces, chunk sizes 1,2,3,1024, 11 reader configurations. Byte level: concrete multi-byte samples through the real encode_input_stream/io.TextIOWrapper with SYMBOLIC cut positions (every partition into <=3 raw reads); symbolic byte content stays outside (C object).',
               'CrossHair symbolic execution of rbql_csv.CSVRecordIterator over a piece-delivering stub stream (z3), differential against reference reader'),
     'C13': _c(BMC + 'query_table == query()+Table adapters == user-written iterator/writer/registry == CSV adapters on symbolic string tables; CLI contract of rbql_main.main() for every outcome of a nondeterministic query_csv stub.', 'C13',
               'Claimed: list/query()/CSV adapters and the CLI contract in process. NOT claimed: real subprocess, files on disk, pandas, sqlite (OS / C boundaries).',
@@ -76,7 +76,7 @@ CLAIMED.update({
 
 CLAIMED.update({
     'C18': dict(_c('Bounded model checking of the lowered code: the synchronous string kernels of rbql-js (csv_utils.js, record assembly of rbql_csv.js) are lowered from ESTree to Python on every run, validated against real node, and executed symbolically next to the Python kernels: same fields / warning / quoted text / records / warnings / IO error for every BMP line or file text within bounds; cross-language quote->split round trips.', 'C18',
-                   'Bounds: lines <=4 (quick)/<=6 chars, file texts <=3/5 chars, delimiters , ; TAB SPACE | :: :=), all policies. Trusted: the ESTree->Python translator and JS runtime shim (vf/jslower), validated per run on ~8000 concrete calls + 400 reader cases against real node; counterexamples replayed in real node. Outside: async plumbing, astral characters, file/CLI level, header-inference kernels (lowered and validated, not yet part of the obligations).',
+                   'Bounds: lines <=4 (quick)/<=6 chars, file texts <=3/5 chars, delimiters , ; TAB SPACE | :: :=), all policies. Trusted: the ESTree->Python translator and JS runtime shim (vf/jslower), validated per run on ~8000 concrete calls + 400 reader cases against real node; counterexamples replayed in real node. Header clause: lowered adhoc_parse_select_expression_to_column_infos + select_output_header vs the Python ast path on 33 common-syntax select lists x symbolic header names; open known finding F9 (JS falls back to colK for parenthesised / blank-padded column references). Outside: async plumbing, astral characters, file/CLI level.',
                    'JS kernels lowered (acorn ESTree -> Python) + CrossHair symbolic execution (z3), differential JS vs Python'), engine='js-lowering+crosshair'),
     'C20': dict(_c('Bounded model checking of the lowered code: real rbql-js reader methods (process_data_stream_chunk/_end, process_line, record aggregation, get_warnings) driven chunk by chunk on symbolic BYTES (per shard a UTF-8 structure pattern; every chunk boundary incl. inside CRLF and inside multi-byte characters) equal the lowered bulk path; every counterexample replayed in real node over a stream.Readable.', 'C20',
                    'Bounds: <=4 (quick)/<=6 bytes, <=3 chunks, utf-8 and binary, quoted/quoted_rfc/simple, comment prefix on/off. Buffer/TextDecoder are pure-Python stubs from the WHATWG contract, validated per run against real node. Outside: 64 KiB default chunking, back-pressure, promise queue.',
